@@ -901,7 +901,7 @@ pub fn check_def() -> PropertyCheck {
   PropertyCheck {
     id: "C06",
     scenarios: vec![Box::new(C06Des), Box::new(C06Threads)],
-    runs: (120_000, 16_000_000),
+    runs: (300_000, 16_000_000),
     rule: "DES case = subject flavour (Subject, SubjectThreads, MutRefItem, MutRefErr, MutRefItemErr) + history of <=14 ops (subscribe, unsubscribe-one, next, error, complete, clone, retain, unsubscribe-subject, subscribe-from-inside-a-callback) through up to 3 cloned handles; thread case = 2-3 threads x <=4 ops on one SubjectThreads with 1-2 stable and 0-1 leaving subscribers under a seeded lock-level schedule; non-trivial = >=2 subscribers or an op after terminal or an inside-join (DES) / >=1 scheduling decision with >1 eligible thread (threads); distinct = distinct (case, behaviour) hashes",
     assumptions: vec![
       "callbacks do not re-enter the subject except for the subscribe-from-inside case the property names",
